@@ -600,8 +600,10 @@ class Engine:
             if ak == 'adt':
                 # S { a: x.a, b: x.b, .. } built from every field of one value x is x (a timespec re-assembled from its parts)
                 names = r.get('fields') or []
+                # (named fields only: `Action::Update(t.0, t.1, t.2)` built from the parts of a tuple is not that tuple)
                 if len(ops) >= 2 and len(names) == len(ops) and all(o[0] == 't' and o[1] == 'field' and str(o[2][1]) == str(nm_)
-                                                                     for o, nm_ in zip(ops, names)) and len({o[2][0] for o in ops}) == 1:
+                                                                     for o, nm_ in zip(ops, names)) and len({o[2][0] for o in ops}) == 1 \
+                        and not all(str(nm_).isdigit() for nm_ in names):
                     return ops[0][2][0]
                 return ('agg', dest_ty if dest_ty else r['adt'], r['vname'], ops)
             if ak == 'tuple':
@@ -1006,6 +1008,24 @@ class Engine:
                 fn = FnInfo({'path': tb.path, 'resolved': {'path': tb.path}, 'defkind': 'Closure'})
                 fv = ('fn', fn)
                 name = declared = tb.path
+        # 0b''. a function pointer taken from a constant table that holds a capture-less closure: rustc stores the closure's
+        # `FnOnce::call_once` shim there, whose first type argument is the closure type; the pointer is called with the
+        # closure's own arguments
+        if fn is not None and declared == 'std::ops::FnOnce::call_once' and (fn.get('targs') or []) and \
+                not (len(args) == 2 and args[0][0] in ('agg', 'fn', 'ref') and args[1][0] == 'agg' and args[1][1] == 'tuple'):
+            t0 = body.crate.types[fn['targs'][0]] if fn['targs'][0] < len(body.crate.types) else {}
+            tb = self.facts.body(t0['def']) if t0.get('k') == 'closure' and t0.get('def') else None
+            if tb is not None and tb.argc == len(args) + 1:
+                env = ('agg', 'closure:' + tb.path, None, ())
+                if tb.local_ty(1).get('k') == 'ref':
+                    h = ('H', 200000 + st.next_heap)
+                    st.next_heap += 1
+                    st.store[(h, ())] = env
+                    env = ('ref', (h, ()))
+                args = [env] + list(args)
+                fn = FnInfo({'path': tb.path, 'resolved': {'path': tb.path}, 'defkind': 'Closure'})
+                fv = ('fn', fn)
+                name = declared = tb.path
         # 0c. a tuple-struct / tuple-variant constructor called as a function (directly or through a fn value)
         if fn and (fn.get('defkind') or '').startswith('Ctor(') and self.facts.body(name) is None:
             path = fn['path']
@@ -1126,6 +1146,16 @@ class Engine:
                 st.store[(('L', nf.fid, i + 1), ())] = a
             st.frames.append(nf)
             return True
+
+        # 2c. `T::default()` inside a generic helper whose T this frame knows to be a primitive integer / bool
+        if declared == 'std::default::Default::default' and not args and fn and (fn.get('targs') or []):
+            ts_ = fr.concrete(fn['targs'][0])
+            if ts_ in ('i8', 'i16', 'i32', 'i64', 'i128', 'isize', 'u8', 'u16', 'u32', 'u64', 'u128', 'usize', 'bool'):
+                self.write(st, dest, C(0, ts_))
+                if target is None:
+                    results.append(PathResult('panic', st, None, site))
+                    return False
+                return self.goto(st, fr, bb, target, results)
 
         # 3. opaque
         self.opaque.add(name)
